@@ -118,16 +118,11 @@ Section DL.
       apply IH in HF. eapply ext2_trans; [apply ext2_add_entry|exact HF].
   Qed.
 
-  (* the download table after a module: only a downloading module adds to it *)
-  Definition dl_after (m : module) (dirs : list (str * str)) : list (str * str) :=
-    match m_srcdir m, m_download m with
-    | Some srcdir, Some d => ainsert srcdir (dl_tagfile d srcdir) dirs
-    | _, _ => dirs
-    end.
+  (* the table of download directories is fixed before the loop (dldirs_all): a step never changes it *)
 
   Theorem module_step_download rules merge_opts ms gdeps objdir bn an st m menv mdeps st' :
     module_step H EV rules merge_opts ms gdeps objdir bn an st (m, menv, mdeps) = Ok st' ->
-    ext st st' /\ ls_dldirs st' = dl_after m (ls_dldirs st) /\
+    ext st st' /\ ls_dldirs st' = ls_dldirs st /\
     forall srcdir, m_srcdir m = Some srcdir -> m_build m = None ->
     exists flat, flatten_with_opts_option merge_opts menv = Ok flat /\
       forall source, In source (all_sources m ms) ->
@@ -137,18 +132,18 @@ Section DL.
                          expand_eval EV flat PIgnore srcdir = Ok sx -> containing_path (ls_dldirs st) sx = Some tf ->
                          has_text st' (phony_after srcpath (Some [tf]) None)).
   Proof.
-    unfold module_step, dl_after. intros HS.
+    unfold module_step. intros HS.
     destruct (m_srcdir m) as [srcdir|]; [|injection HS as <-; split; [apply ext_refl|split; [reflexivity|intros ? [=]]]].
     destruct (flatten_with_opts_option merge_opts menv) as [flat| | |]; cbn [rbind] in HS; try discriminate.
     match type of HS with rbind ?X _ = _ => destruct X as [dl_stmts| | |] eqn:Edl end; cbn [rbind] in HS; try discriminate.
     pose proof (ext2_fold_entries dl_stmts st) as X0.
     set (st0 := fold_left (fun s e => add_entry e s) dl_stmts st) in *.
     match type of HS with rbind ?X _ = _ => destruct X as [[sta tag]| | |] eqn:Esta end; cbn [rbind] in HS; try discriminate.
-    assert (Ha : ext st sta /\ ls_dldirs sta = match m_download m with Some d => ainsert srcdir (dl_tagfile d srcdir) (ls_dldirs st) | None => ls_dldirs st end
+    assert (Ha : ext st sta /\ ls_dldirs sta = ls_dldirs st
                  /\ (forall sx, m_download m = None -> expand_eval EV flat PIgnore srcdir = Ok sx -> tag = containing_path (ls_dldirs st) sx)).
     { destruct (m_download m) as [d|].
-      - injection Esta as <- <-. split; [eapply ext_trans; [exact (proj1 X0)|apply ext_add_dldir]|].
-        split; [cbn [add_dldir ls_dldirs]; rewrite (proj2 X0); reflexivity|intros ? [=]].
+      - injection Esta as <- <-. split; [exact (proj1 X0)|].
+        split; [exact (proj2 X0)|intros ? [=]].
       - unfold rmap in Esta. destruct (expand_eval EV flat PIgnore srcdir) as [sx0| | |]; cbn [rbind] in Esta; try discriminate.
         injection Esta as <- <-. split; [exact (proj1 X0)|]. split; [exact (proj2 X0)|].
         intros sx _ [= <-]. rewrite (proj2 X0). reflexivity. }
@@ -178,14 +173,10 @@ Section DL.
       intros sx tf Hn Hd Hsx Hc. apply Ht; [exact Hn|]. rewrite (Htag sx Hd Hsx). exact Hc.
   Qed.
 
-  (* the table of download directories that the modules of [pre] leave behind *)
-  Definition dldirs_of (pre : list (module * env * option (list module))) : list (str * str) :=
-    fold_left (fun acc mm => dl_after (fst (fst mm)) acc) pre [].
-
   Lemma loop_ext rules merge_opts ms gdeps objdir bn an : forall in_order st st',
     fold_left (fun acc mm => rbind acc (fun st0 => module_step H EV rules merge_opts ms gdeps objdir bn an st0 mm))
               in_order (Ok st) = Ok st' ->
-    ext st st' /\ ls_dldirs st' = fold_left (fun acc mm => dl_after (fst (fst mm)) acc) in_order (ls_dldirs st).
+    ext st st' /\ ls_dldirs st' = ls_dldirs st.
   Proof.
     induction in_order as [|mm t IH]; intros st st' HF; cbn [fold_left] in HF.
     - injection HF as <-. split; [apply ext_refl|reflexivity].
@@ -195,7 +186,7 @@ Section DL.
       destruct mm as [[m menv] mdeps].
       destruct (module_step_download _ _ _ _ _ _ _ _ _ _ _ _ Es) as (X1 & D1 & _).
       destruct (IH _ _ HF) as [X' D']. split; [eapply ext_trans; eassumption|].
-      cbn [fold_left fst]. rewrite D', D1. reflexivity.
+      rewrite D', D1. reflexivity.
   Qed.
 
   Lemma loop_split rules merge_opts ms gdeps objdir bn an : forall pre post st st',
@@ -212,19 +203,20 @@ Section DL.
     exists sm. split; [reflexivity|exact HF].
   Qed.
 
-  (* (4) the loop of one build: a module anywhere in the build order sees the download directories of
-     the downloading modules before it, and what it emits for its sources is in the final set *)
-  Theorem loop_download_order rules merge_opts ms gdeps objdir bn an pre m menv mdeps post st' srcdir :
+  (* (4) the loop of one build, started with a table [dirs] of download directories (configure_build
+     starts it with dldirs_all of the whole build order): every module, wherever it stands in the order,
+     sees that table, and what it emits for its sources is in the final set *)
+  Theorem loop_download_order rules merge_opts ms gdeps objdir bn an dirs pre m menv mdeps post st' srcdir :
     fold_left (fun acc mm => rbind acc (fun st0 => module_step H EV rules merge_opts ms gdeps objdir bn an st0 mm))
               (pre ++ (m, menv, mdeps) :: post)
-              (Ok {| ls_entries := []; ls_objects := []; ls_depfiles := []; ls_dldirs := [] |}) = Ok st' ->
+              (Ok {| ls_entries := []; ls_objects := []; ls_depfiles := []; ls_dldirs := dirs |}) = Ok st' ->
     m_srcdir m = Some srcdir -> m_build m = None ->
     exists flat, flatten_with_opts_option merge_opts menv = Ok flat /\
       forall source, In source (all_sources m ms) ->
         exists srcpath, expand_eval EV flat PEmpty (path_push srcdir source) = Ok srcpath /\
           (forall ld, m_build_dep_files m = Some ld -> has_text st' (phony_after srcpath None (Some (sort_paths ld)))) /\
           (forall sx tf, m_build_dep_files m = None -> m_download m = None ->
-                         expand_eval EV flat PIgnore srcdir = Ok sx -> containing_path (dldirs_of pre) sx = Some tf ->
+                         expand_eval EV flat PIgnore srcdir = Ok sx -> containing_path dirs sx = Some tf ->
                          has_text st' (phony_after srcpath (Some [tf]) None)).
   Proof.
     intros HF Hsd Hb.
@@ -241,6 +233,28 @@ Section DL.
     - intros ld E. apply (has_text_ext s1); [exact Xp|exact (Hl ld E)].
     - intros sx tf E1 E2 E3 E4. apply (has_text_ext s1); [exact Xp|]. apply (Ht sx tf E1 E2 E3).
       rewrite Dm. exact E4.
+  Qed.
+
+  (* every downloading module of the build order is in the table, with its own tag file *)
+  Lemma dldirs_all_has : forall (l : list (module * env * option (list module))) m menv mdeps srcdir d,
+    In (m, menv, mdeps) l -> m_srcdir m = Some srcdir -> m_download m = Some d ->
+    exists tf, alookup srcdir (dldirs_all l) = Some tf.
+  Proof.
+    intros l m menv mdeps srcdir d Hin Hs Hd. unfold dldirs_all.
+    assert (G : forall l0 acc, (alookup srcdir acc <> None \/ In (m, menv, mdeps) l0) ->
+              alookup srcdir (fold_left (fun acc mm => match m_srcdir (fst (fst mm)), m_download (fst (fst mm)) with
+                                                       | Some sd, Some d0 => ainsert sd (dl_tagfile d0 sd) acc
+                                                       | _, _ => acc end) l0 acc) <> None).
+    { induction l0 as [|mm t IH]; intros acc Hor; cbn [fold_left].
+      - destruct Hor as [Hn|[]]. exact Hn.
+      - apply IH. destruct Hor as [Hn|[->|Hin0]].
+        + left. destruct (m_srcdir (fst (fst mm))) as [sd|]; [|exact Hn]. destruct (m_download (fst (fst mm))) as [d0|]; [|exact Hn].
+          destruct (str_eqb srcdir sd) eqn:E.
+          * apply str_eqb_eq in E. subst sd. rewrite alookup_ainsert_same. discriminate.
+          * apply str_eqb_neq in E. rewrite alookup_ainsert_other by exact E. exact Hn.
+        + left. cbn [fst]. rewrite Hs, Hd. rewrite alookup_ainsert_same. discriminate.
+        + right. exact Hin0. }
+    specialize (G l [] (or_intror Hin)). destruct (alookup srcdir _) as [tf|]; [exists tf; reflexivity|contradiction].
   Qed.
 End DL.
 
@@ -302,7 +316,7 @@ Section Build.
               (forall ld, m_build_dep_files m = Some ld ->
                           In (show_stmt (phony_after srcpath None (Some (sort_paths ld)))) (map show_stmt entries)) /\
               (forall sx tf, m_build_dep_files m = None -> m_download m = None ->
-                             expand_eval EV flat PIgnore srcdir = Ok sx -> containing_path (dldirs_of pre) sx = Some tf ->
+                             expand_eval EV flat PIgnore srcdir = Ok sx -> containing_path (dldirs_all in_order) sx = Some tf ->
                              In (show_stmt (phony_after srcpath (Some [tf]) None)) (map show_stmt entries)).
   Proof.
     unfold configure_build. intros HC.
@@ -328,7 +342,7 @@ Section Build.
       end.
       all: repeat (apply sset_insert_text; left). all: exact Hs. }
     intros pre m menv mdeps post srcdir -> Hsd Hb.
-    destruct (loop_download_order H EV _ _ _ _ _ _ _ _ _ _ _ _ _ _ Hloop Hsd Hb) as (flat & Ef & Hall).
+    destruct (loop_download_order H EV _ _ _ _ _ _ _ _ _ _ _ _ _ _ _ Hloop Hsd Hb) as (flat & Ef & Hall).
     exists flat. split; [exact Ef|]. intros source Hin.
     destruct (Hall source Hin) as (sp & Esp & Hl & Ht). exists sp. split; [exact Esp|]. split.
     - intros ld Hq. apply Hsub. exact (Hl ld Hq).
